@@ -31,6 +31,7 @@ Section One.
   Variable c : cfg.
   Hypothesis Hfi : fix_incr c = true.
   Hypothesis Hfn : fix_setnx c = true.
+  Hypothesis Hwb : fix_wb c = false.          (* the code without the key-lock repair; Proofs/HybridLock.v covers the repaired code *)
   Variable k : kbytes.
   Hypothesis H1 : two_tier T c k = false.
   Let ct := cache_tier_for_key T c k.
@@ -41,45 +42,47 @@ Section One.
   Proof. exact H1. Qed.
 
   Lemma one_step cl w o r :
-    cpc cl = PIdle -> ops cl = o :: r -> faults cl = [] -> op_ok o ->
+    cpc cl = PIdle -> ops cl = o :: r -> faults cl = [] -> held cl = false -> op_ok o ->
     cpc (fst (caller_step T c cl w)) = PIdle /\ ops (fst (caller_step T c cl w)) = r /\
-    faults (fst (caller_step T c cl w)) = [] /\
+    faults (fst (caller_step T c cl w)) = [] /\ held (fst (caller_step T c cl w)) = false /\
     w_spawned (snd (caller_step T c cl w)) = w_spawned w /\
     w_hist (snd (caller_step T c cl w)) = (me cl, o, snd (spec_op (tget w ct k) o)) :: w_hist w /\
     tget (snd (caller_step T c cl w)) ct k = fst (spec_op (tget w ct k) o).
   Proof.
-    intros Hpc Hops Hf [Hk Hl]. unfold caller_step. rewrite Hpc, Hops. unfold pop_fault. rewrite Hf.
+    intros Hpc Hops Hf Hh [Hk Hl]. unfold caller_step. rewrite Hpc, Hops.
+    assert (Hlo : locks_op c o = false) by (unfold locks_op; rewrite Hwb; destruct o; reflexivity). rewrite Hlo.
+    unfold pop_fault. rewrite Hf.
     pose proof (ctk_cases T c k) as Hct. pose proof pers_off as Hp. fold ct in Hct.
     destruct o as [k0 v|k0|k0|k0|k0 x|k0 x|k0|k0 v]; cbn in Hk, Hl; try discriminate; subst k0; cbn [op_start].
     - (* Set *)
       unfold set_start. destruct (category T k) eqn:Hc; cbn [is_pers_cat andb] in Hp; try rewrite Hp; rewrite <- ?Hct;
-        unfold finish; cbn [cur cpc ops faults me fst snd spec_op];
+        unfold finish; cbn [cur cpc ops faults me held fst snd spec_op]; rewrite ?Hh;
         rewrite ?tget_add_hist, ?tget_wr_same, ?spawned_wr, ?hist_wr; cbn; rewrite ?spawned_wr, ?hist_wr, ?spawned_tset, ?hist_tset; repeat split; first [reflexivity | exact Hf].
     - (* Get *)
       unfold get_start. destruct (category T k) eqn:Hc; cbn [is_pers_cat andb] in Hp; try rewrite Hp; rewrite <- ?Hct;
-        destruct (tget w ct k) eqn:Ev; unfold get_done, val_res, finish; cbn [cur cpc ops faults me fst snd spec_op];
+        destruct (tget w ct k) eqn:Ev; unfold get_done, val_res, finish; cbn [cur cpc ops faults me held fst snd spec_op]; rewrite ?Hh;
         rewrite ?tget_add_hist, ?tget_acc, ?Ev; cbn; rewrite ?tget_add_hist, ?tget_acc, ?Ev; repeat split; first [reflexivity | exact Hf].
     - (* Delete *)
       unfold del_start. destruct (category T k) eqn:Hc; cbn [is_pers_cat andb] in Hp; try rewrite Hp; rewrite <- ?Hct;
-        unfold finish; cbn [cur cpc ops faults me fst snd spec_op];
+        unfold finish; cbn [cur cpc ops faults me held fst snd spec_op]; rewrite ?Hh;
         rewrite ?tget_add_hist, ?tget_wr_same; cbn; rewrite ?spawned_wr, ?hist_wr, ?spawned_tset, ?hist_tset, ?tget_add_hist, ?tget_wr_same; repeat split; first [reflexivity | exact Hf].
     - (* Exists *)
       unfold exists_start. destruct (category T k) eqn:Hc; cbn [is_pers_cat andb negb] in Hp |- *; try rewrite Hp; rewrite <- ?Hct;
-        destruct (tget w ct k) eqn:Ev; cbn [is_some]; unfold finish; cbn [cur cpc ops faults me fst snd spec_op];
+        destruct (tget w ct k) eqn:Ev; cbn [is_some]; unfold finish; cbn [cur cpc ops faults me held fst snd spec_op]; rewrite ?Hh;
         rewrite ?tget_add_hist, ?tget_acc, ?Ev; cbn; rewrite ?tget_add_hist, ?tget_acc, ?Ev; repeat split; first [reflexivity | exact Hf].
     - (* Incr *)
       unfold incr_start. rewrite Hfi. fold ct.
-      destruct (tget w ct k) as [[n|l|n]|] eqn:Ev; unfold finish; cbn [cur cpc ops faults me fst snd spec_op];
+      destruct (tget w ct k) as [[n|l|n]|] eqn:Ev; unfold finish; cbn [cur cpc ops faults me held fst snd spec_op]; rewrite ?Hh;
         rewrite ?tget_add_hist, ?tget_wr_same, ?tget_acc, ?Ev; cbn; rewrite ?spawned_wr, ?hist_wr, ?spawned_tset, ?hist_tset, ?tget_add_hist, ?tget_wr_same, ?tget_acc, ?Ev; repeat split; first [reflexivity | exact Hf].
     - (* SetNX *)
       unfold setnx_start. rewrite Hfn, H1. cbn [andb]. fold ct.
-      destruct (tget w ct k) eqn:Ev; unfold finish; cbn [cur cpc ops faults me fst snd spec_op];
+      destruct (tget w ct k) eqn:Ev; unfold finish; cbn [cur cpc ops faults me held fst snd spec_op]; rewrite ?Hh;
         rewrite ?tget_add_hist, ?tget_wr_same, ?tget_acc, ?Ev; cbn; rewrite ?spawned_wr, ?hist_wr, ?spawned_tset, ?hist_tset, ?tget_add_hist, ?tget_wr_same, ?tget_acc, ?Ev; repeat split; first [reflexivity | exact Hf].
   Qed.
 
   Definition thread1_ok (t : thread) : Prop :=
     match t with
-    | TCaller cl => cpc cl = PIdle /\ faults cl = [] /\ Forall op_ok (ops cl)
+    | TCaller cl => cpc cl = PIdle /\ faults cl = [] /\ held cl = false /\ Forall op_ok (ops cl)
     | TWb _ _ => True
     end.
   Definition LInv (init : option value) (s : world * list thread) : Prop :=
@@ -91,12 +94,12 @@ Section One.
     destruct (nth_error ts i) as [t|] eqn:E; [|auto].
     pose proof (Forall_nth_error _ _ _ _ Hts E) as Ht.
     destruct t as [cl|j [|]]; cbn [tstep].
-    - destruct Ht as (Hpc & Hf & Hops).
+    - destruct Ht as (Hpc & Hf & Hh & Hops).
       destruct (ops cl) as [|o r] eqn:Eo.
       + unfold caller_step. rewrite Hpc, Eo. cbn [fst snd]. split; [exact Hs|split; [exact Hl|]].
         apply Forall_upd_nth; [exact Hts|]. cbn. rewrite Eo. auto.
       + inversion Hops as [|? ? Ho Hr]; subst.
-        pose proof (one_step cl w o r Hpc Eo Hf Ho) as (P1 & P2 & P3 & P4 & P5 & P6).
+        pose proof (one_step cl w o r Hpc Eo Hf Hh Ho) as (P1 & P2 & P3 & P3h & P4 & P5 & P6).
         destruct (caller_step T c cl w) as [cl' w']. cbn [fst snd] in *.
         split; [rewrite P4; exact Hs|split].
         * rewrite P5, P6. constructor. exact Hl.
